@@ -21,7 +21,7 @@ for sid in sorted(os.listdir(os.path.join(ROOT, "seeded"))):
         meta = json.load(open(os.path.join(d, "meta.json")))
         res = {}
         for chk in [sid.split("-")[0]] + EXTRA.get(sid, []):
-            env = dict(os.environ, VERIF_REPO=tmp)
+            env = dict(os.environ, VERIF_REPO=tmp, VERIF_OUT=os.path.join(tmp, ".verif_out"))
             out = subprocess.run([os.path.join(ROOT, "check"), chk, "--tier", "quick"], env=env, capture_output=True, text=True).stdout
             last = [l for l in out.splitlines() if l.startswith("[")][-1:] or ["?"]
             verdict = "detected" if " violated:" in last[0] else ("inconclusive" if "inconclusive" in last[0] else "missed")
